@@ -35,6 +35,50 @@ pub fn image_of(parser: &CooklangParser, input: &str) -> String {
     s
 }
 
+/// parse options of a call: 0 none; 1 a metadata validator that drops every entry and disables the standard checks;
+/// 2 a validator that reports an error with a hint for every entry; 3 a recipe-reference checker that warns.
+/// What a call with one kind of options does must not leak into calls with another kind (or none).
+fn options(opt: usize) -> cooklang::analysis::ParseOptions<'static> {
+    use cooklang::analysis::{CheckResult, ParseOptions};
+    match opt {
+        1 => ParseOptions {
+            recipe_ref_check: None,
+            metadata_validator: Some(Box::new(|_k, _v, o| {
+                o.include(false);
+                o.run_std_checks(false);
+                CheckResult::Ok
+            })),
+        },
+        2 => ParseOptions { recipe_ref_check: None, metadata_validator: Some(Box::new(|_k, _v, _o| CheckResult::Error(vec!["refused by the validator".into()]))) },
+        3 => ParseOptions { recipe_ref_check: Some(Box::new(|_name| CheckResult::Warning(vec!["not found".into()]))), metadata_validator: None },
+        _ => ParseOptions::default(),
+    }
+}
+
+pub fn image_with(parser: &CooklangParser, input: &str, opt: usize) -> String {
+    if opt == 0 {
+        return image_of(parser, input);
+    }
+    let r = parser.parse_with_options(input, options(opt));
+    let mut s = String::new();
+    for d in r.report().iter() {
+        s.push_str(&format!("{:?}|{:?}|{}|{:?}|{:?}\n", d.severity, d.stage, d.message, d.labels, d.hints));
+    }
+    s.push_str(&format!("valid={}\n", r.is_valid()));
+    if let Some(o) = r.output() {
+        s.push_str(&serde_json::to_string(o).unwrap_or_else(|e| format!("<unserializable: {e}>")));
+    }
+    let m = parser.parse_metadata_with_options(input, options(opt));
+    s.push_str("\nMETA\n");
+    for d in m.report().iter() {
+        s.push_str(&format!("{:?}|{:?}|{}|{:?}\n", d.severity, d.stage, d.message, d.labels));
+    }
+    if let Some(o) = m.output() {
+        s.push_str(&serde_json::to_string(o).unwrap_or_default());
+    }
+    s
+}
+
 /// the fixed pool: identical in every process so that hashes are comparable across processes
 pub fn pool() -> Vec<String> {
     let mut v: Vec<String> = SEEDS.iter().map(|s| s.to_string()).collect();
@@ -124,8 +168,10 @@ fn sequential(ctx: &mut Ctx, pool: &[String], log: &mut Log, calls: usize) {
         let mut r = Rng::new(ctx.seed ^ ci as u64 ^ ((ctx.shard as u64) << 20));
         for k in 0..calls {
             let i = r.below(pool.len());
+            // one call in three goes through parse_with_options / parse_metadata_with_options
+            let opt = if k % 3 == 1 { 1 + r.below(3) } else { 0 };
             let res = crate::core::guarded(|| {
-                let img = image_of(&parser, &pool[i]);
+                let img = image_with(&parser, &pool[i], opt);
                 // interleave other operations on the same parser between parses
                 if k % 3 == 0 {
                     if let Some(rec) = parser.parse(&pool[(i + 1) % pool.len()]).into_output() {
@@ -137,7 +183,12 @@ fn sequential(ctx: &mut Ctx, pool: &[String], log: &mut Log, calls: usize) {
                 img
             });
             match res {
-                Ok(img) => log.record(i, ci, hash64(img.as_bytes())),
+                Ok(img) => {
+                    log.record(i, ci + 10 * opt, hash64(img.as_bytes()));
+                    if opt > 0 {
+                        ctx.count("calls_with_parse_options");
+                    }
+                }
                 Err(_) => ctx.count("panic_in_parse(C03)"),
             }
             if k % 50 == 0 {
@@ -168,6 +219,7 @@ fn threaded(ctx: &mut Ctx, pool: &[String], log: &mut Log, nthreads: usize, ops:
         for t in 0..nthreads {
             let (parser, barrier, out, first, keys, pool_arc) = (parser.clone(), barrier.clone(), out.clone(), first.clone(), keys.clone(), pool_arc.clone());
             let seed = ctx.seed ^ ((t as u64) << 8) ^ round as u64;
+            let with_options = round % 2 == 1;
             handles.push(std::thread::spawn(move || {
                 let mut r = Rng::new(seed);
                 let mut local = Vec::new();
@@ -179,8 +231,9 @@ fn threaded(ctx: &mut Ctx, pool: &[String], log: &mut Log, nthreads: usize, ops:
                 first.lock().unwrap().push(t);
                 for _ in 0..ops {
                     let i = keys[r.below(keys.len())];
-                    let img = image_of(&parser, &pool_arc[i]);
-                    local.push((t, i, hash64(img.as_bytes())));
+                    let opt = if with_options && r.below(3) == 0 { 1 + r.below(3) } else { 0 };
+                    let img = image_with(&parser, &pool_arc[i], opt);
+                    local.push((t, i + 100_000 * opt, hash64(img.as_bytes())));
                 }
                 out.lock().unwrap().extend(local);
             }));
@@ -198,7 +251,7 @@ fn threaded(ctx: &mut Ctx, pool: &[String], log: &mut Log, nthreads: usize, ops:
             ctx.count(&format!("first_thread_at_table:{t}"));
         }
         for (_, i, h) in out.lock().unwrap().iter() {
-            log.record(*i, ci, *h);
+            log.record(*i % 100_000, ci + 10 * (*i / 100_000), *h);
         }
         ctx.count_n("threaded_calls", (nthreads * ops) as u64);
         ctx.count("thread_rounds");
